@@ -56,6 +56,7 @@ func runC06(c *Ctx) {
 		igf := c.Fn("core:IntrinsicGas")
 		f := c.Facts(igf)
 		n := 0
+		nzTok := ""
 		for _, rs := range f.AcceptingReturns(-1, false) {
 			n++
 			res := f.tr.term(rs.State, rs.Ret.Results[0], 0)
@@ -66,18 +67,55 @@ func runC06(c *Ctx) {
 			want := base
 			guards := true
 			if rs.State.lits["len([]byte#0) > 0"] {
-				want = fmt.Sprintf("((%s + (phi:nz * 68)) + ((len([]byte#0) - phi:nz) * 4))", base)
-				g1 := fmt.Sprintf("phi:nz <= ((18446744073709551615 - %s) / 68)", base)
-				g2 := fmt.Sprintf("(len([]byte#0) - phi:nz) <= ((18446744073709551615 - (%s + (phi:nz * 68))) / 4)", base)
+				// the non-zero-byte counter is identified by its role in the result, not by its name
+				nz := "phi:?"
+				if m := mustRe(`^\(\(` + base + ` \+ \((` + PH + `) \* 68\)\)`).FindStringSubmatch(res); m != nil {
+					nz = m[1]
+					nzTok = nz
+				}
+				want = fmt.Sprintf("((%s + (%s * 68)) + ((len([]byte#0) - %s) * 4))", base, nz, nz)
+				g1 := fmt.Sprintf("%s <= ((18446744073709551615 - %s) / 68)", nz, base)
+				g2 := fmt.Sprintf("(len([]byte#0) - %s) <= ((18446744073709551615 - (%s + (%s * 68))) / 4)", nz, base, nz)
 				guards = rs.State.lits[g1] && rs.State.lits[g2]
 			}
 			c.Ob("C06-R1", "IntrinsicGas result under {"+strings.Join(guardLits(rs.State), ", ")+"}", c.Position(rs.Ret.Pos()), res == want && guards,
 				fmt.Sprintf("returns %s; specification: %s with both uint64 overflow guards (guards present: %v)", res, want, guards))
 		}
 		c.Ob("C06-R1", "IntrinsicGas has accepting paths for creation/non-creation x empty/non-empty data", c.FnPos(igf), n >= 6, fmt.Sprintf("%d accepting path states", n))
-		// the data loop counts non-zero bytes
-		back := f.LoopBackStates(`^$`)
-		_ = back
+		// the counter in the result counts exactly the non-zero bytes: it starts at 0 and is incremented by one only
+		// under data[i] != 0, in the loop over the data
+		okCount, dCount := false, "counter not found"
+		for _, b := range igf.Blocks {
+			for _, ins := range b.Instrs {
+				p, isPhi := ins.(*ssa.Phi)
+				if !isPhi || nzTok == "" || f.tr.term(nil, p, 0) != nzTok {
+					continue
+				}
+				zero, incs := false, 0
+				okInc := true
+				for _, l := range phiLeaves(p) {
+					if k, isC := constInt(l); isC && k == 0 {
+						zero = true
+						continue
+					}
+					bo, isB := l.(*ssa.BinOp)
+					one, isOne := int64(0), false
+					if isB {
+						one, isOne = constInt(bo.Y)
+					}
+					if !isB || bo.Op != token.ADD || !isOne || one != 1 {
+						okInc = false
+						continue
+					}
+					incs++
+					if ok, _ := allHave(f.At(bo), mustRe(`^\[\]byte#0\[.*\] != 0$`)); !ok {
+						okInc = false
+					}
+				}
+				okCount, dCount = zero && incs == 1 && okInc, fmt.Sprintf("starts at zero: %v; increment sites: %d; guarded by data[i] != 0: %v", zero, incs, okInc)
+			}
+		}
+		c.Ob("C06-R1", "IntrinsicGas: the counter priced at 68 gas counts exactly the non-zero data bytes", c.FnPos(igf), okCount, dCount)
 		c.ConstIs("C06-R1", "params:TxGas", "21000")
 		c.ConstIs("C06-R1", "params:TxGasContractCreation", "53000")
 		c.ConstIs("C06-R1", "params:TxDataZeroGas", "4")
@@ -131,10 +169,27 @@ func runC06(c *Ctx) {
 
 	c.Rule("C06-R3", "refund = min(gasUsed/2, refund counter), applied before fee and reported gas; same gasPrice everywhere", func() {
 		rf := c.Fn("core:(*StateTransition).refundGas")
-		ff := c.FactsFocus(rf, `GetRefund`, true, "refund")
-		phi, rows := ff.PhiTable("refund")
+		// the refund is the value added to st.gas (identified by that role, not by its name)
+		ff := c.FactsFocus(rf, `GetRefund`, true, "type:uint64")
+		var phi *ssa.Phi
+		for _, b := range rf.Blocks {
+			for _, ins := range b.Instrs {
+				if stI, ok := ins.(*ssa.Store); ok {
+					if fa, ok := stI.Addr.(*ssa.FieldAddr); ok && fieldName(fa) == "gas" {
+						if bo, ok := stI.Val.(*ssa.BinOp); ok && bo.Op == token.ADD {
+							if p, ok := bo.Y.(*ssa.Phi); ok {
+								phi = p
+							} else if p, ok := bo.X.(*ssa.Phi); ok {
+								phi = p
+							}
+						}
+					}
+				}
+			}
+		}
+		rows := ff.PhiTableOf(phi)
 		if phi == nil {
-			c.Ob("C06-R3", "refundGas: refund selection", c.FnPos(rf), false, "no phi named refund")
+			c.Ob("C06-R3", "refundGas: refund selection", c.FnPos(rf), false, "st.gas is not increased by a value selected between two candidates")
 		}
 		half := "(StateTransition#0.gasUsed() / 2)"
 		cnt := "StateTransition#0.state.GetRefund()"
@@ -152,7 +207,7 @@ func runC06(c *Ctx) {
 			c.Ob("C06-R3", "refundGas: refund = "+r.Val+" under {"+strings.Join(guardLits(r.State), ", ")+"}", c.Position(phi.Pos()), r.Val == want, "specification: min(gasUsed/2, GetRefund()) = "+want)
 		}
 		c.Ob("C06-R3", "refundGas: both branches of the cap exist", c.FnPos(rf), seen == 2, fmt.Sprintf("%d decided selections", seen))
-		c.storeIs("C06-R3", rf, "gas", `^\(StateTransition#0\.gas \+ phi:refund\)$`, "gas += refund")
+		c.storeIs("C06-R3", rf, "gas", `^\(StateTransition#0\.gas \+ `+PH+`\)$`, "gas += refund")
 		f := c.Facts(rf)
 		remaining := `new\(Int\)(~\d+)?\.Mul\(new\(Int\)(~\d+)?\.SetUint64\(` + st + `\.gas\), ` + st + `\.gasPrice\)`
 		var states []*pstate
